@@ -89,8 +89,15 @@ func TestVerifC09(t *testing.T) {
 	for round := 0; round < rounds; round++ {
 		// (a) shared learned-route table, two loops
 		slr := NewSelfLearnRoute()
+		// the listeners of a service also share one static route table and one host table
+		routes := NewPreConfigRoute()
+		routes.AddRouteItem("udp", "*.wild.verif.test", fmt.Sprintf("127.5.%d.250:5060", round))
+		routes.AddRouteItem("udp", "x.*.verif.test", fmt.Sprintf("127.5.%d.251:5060", round))
+		routes.AddRouteItem("udp", "exact.verif.test", fmt.Sprintf("127.5.%d.252:5060", round))
+		hostTable := NewPreConfigHostResolver()
+		hostTable.AddHostIP("nh.verif.test", fmt.Sprintf("127.5.%d.253", round))
 		mk := func(i int) *vfFixture {
-			p := NewProxy("svc.verif.test", 1200, fmt.Sprintf("127.5.%d.%d", round, i+1), false, NewPreConfigRoute(), NewPreConfigHostResolver(), slr, true, false)
+			p := NewProxy("svc.verif.test", 1200, fmt.Sprintf("127.5.%d.%d", round, i+1), false, routes, hostTable, slr, true, false)
 			item, _ := NewProxyItem(fmt.Sprintf("127.5.%d.%d", round, i+1), 5060, 0, fmt.Sprintf("127.5.%d.%d", round, i+1), 0, []string{fmt.Sprintf("udp://127.5.%d.20%d:7000", round, i)}, nil, true, false, p, slr, p)
 			p.AddItem(item)
 			return &vfFixture{proxy: p, item: item, trans: item.transports[0], slr: slr}
@@ -102,7 +109,14 @@ func TestVerifC09(t *testing.T) {
 			go func(i int, fx *vfFixture) {
 				defer wg.Done()
 				for k := 0; k < 400; k++ {
-					m := fmt.Sprintf("OPTIONS sip:svc.verif.test SIP/2.0\r\nVia: SIP/2.0/UDP 127.5.9.%d:5060;branch=z9hG4bK%d-%d, SIP/2.0/UDP shared.invalid;branch=z9hG4bKx\r\nFrom: <sip:a@x>;tag=1\r\nTo: <tel:+1>\r\nCall-ID: %d-%d\r\nCSeq: 1 OPTIONS\r\nContent-Length: 0\r\n\r\n", k%5, i, k, i, k)
+					to := "<tel:+1>"
+					switch k % 4 {
+					case 1:
+						to = "<sip:u@a.wild.verif.test>" // static route found by the wildcard scan
+					case 2:
+						to = "<sip:u@x.y.verif.test>"
+					}
+					m := fmt.Sprintf("OPTIONS sip:svc.verif.test SIP/2.0\r\nVia: SIP/2.0/UDP 127.5.9.%d:5060;branch=z9hG4bK%d-%d, SIP/2.0/UDP shared.invalid;branch=z9hG4bKx\r\nFrom: <sip:a@x>;tag=1\r\nTo: %s\r\nCall-ID: %d-%d\r\nCSeq: 1 OPTIONS\r\nContent-Length: 0\r\n\r\n", k%5, i, k, to, i, k)
 					fx.inject(fmt.Sprintf("127.5.9.%d", k%5), 5060, []byte(m))
 					atomic.AddInt64(&ops, 1)
 				}
